@@ -23,6 +23,8 @@ pub struct Budget {
     pub maint: u8,
     pub snap: u8,
     pub reopen: u8,
+    #[serde(default)]
+    pub special: u8,
 }
 
 impl Budget {
@@ -34,6 +36,7 @@ impl Budget {
                 Class::Maint => &mut b.maint,
                 Class::Snap => &mut b.snap,
                 Class::Reopen => &mut b.reopen,
+                Class::Special => &mut b.special,
             };
             if *slot == 0 {
                 return None;
@@ -65,6 +68,10 @@ pub trait Scenario: Send + Sync {
     /// class of outcome for the "distinct outcomes" counter
     fn outcome(&self, _d: &Driver) -> u64 {
         0
+    }
+    /// scenario-specific counters for the evidence file
+    fn extra_evidence(&self) -> serde_json::Value {
+        serde_json::Value::Null
     }
 }
 
@@ -409,6 +416,7 @@ pub fn explore(sc: Arc<dyn Scenario>, limits: &Limits) -> RunResult {
                                 Class::Maint => left.maint > 0,
                                 Class::Snap => left.snap > 0,
                                 Class::Reopen => left.reopen > 0,
+                                Class::Special => left.special > 0,
                             };
                             if ok {
                                 let mut o = ops.clone();
